@@ -96,7 +96,7 @@ impl Property for C20 {
         "C20"
     }
     fn cases(&self, cfg: &Cfg) -> u64 {
-        4 + cfg.tier.pick(500, 5_000)
+        5 + cfg.tier.pick(500, 5_000)
     }
     fn run_case(&self, cfg: &Cfg, i: u64, acc: &mut Acc) {
         let rs = RandomState::new();
@@ -216,10 +216,57 @@ impl Property for C20 {
                 for n in mpdspec::OTHER_TAG_NAMES {
                     cands.push(n.to_string());
                 }
+                // characters outside ASCII whose case mappings land on ASCII letters (Kelvin sign, long s, dotless
+                // and dotted i, ligatures): known names spelled with them are NOT names the protocol can carry
+                for (_, n) in &named {
+                    for (from, to) in [('k', '\u{212a}'), ('K', '\u{212a}'), ('s', '\u{17f}'), ('S', '\u{17f}'), ('i', '\u{131}'), ('I', '\u{130}'), ('a', '\u{e5}'), ('A', '\u{212b}')] {
+                        if n.contains(from) {
+                            cands.push(n.replacen(from, &to.to_string(), 1));
+                            cands.push(n.to_ascii_lowercase().replacen(from.to_ascii_lowercase(), &to.to_string(), 1));
+                            cands.push(n.to_ascii_uppercase().replacen(from.to_ascii_uppercase(), &to.to_string(), 1));
+                        }
+                    }
+                    if n.contains("fi") {
+                        cands.push(n.replacen("fi", "\u{fb01}", 1));
+                    }
+                }
                 for s in cands {
                     self.parse_one(acc, i, &s, &named);
                 }
                 acc.inc("parse_exhaustive_done");
+            }
+            4 => {
+                // every subsystem name reported by the server maps to an event whose protocol name is that name:
+                // one real session per block of names (14 documented names, case variants, unknown names)
+                use crate::sim::scenario::ms;
+                use crate::sim::session::{run_session, Scenario};
+                use crate::sim::world::EvKind;
+                let mut names: Vec<String> = Vec::new();
+                for n in mpdspec::SUBSYSTEMS {
+                    names.extend(casings(n));
+                }
+                for n in ["foo_bar", "x-y", "storedplaylist", "queue", "Playlist", "stored-playlist", "a", "Z"] {
+                    names.push(n.to_string());
+                }
+                let mut sc = Scenario::new("subsystem-names", 20);
+                sc.world.pending_as_set = false;
+                // one name per reply, then all of them in replies of five
+                for (k, n) in names.iter().enumerate() {
+                    sc.notifications.push((ms(10 + 3 * k as u64), vec![n.clone()]));
+                }
+                let base = 10 + 3 * names.len() as u64 + 50;
+                for (k, chunk) in names.chunks(5).enumerate() {
+                    sc.notifications.push((ms(base + 3 * k as u64), chunk.to_vec()));
+                }
+                let out = run_session(&sc);
+                acc.inc("evaluations");
+                let want: Vec<String> = sc.notifications.iter().flat_map(|(_, ns)| ns.iter().cloned()).chain(std::iter::once("epilogue_probe".to_string())).collect();
+                let got: Vec<String> = out.log.iter().filter_map(|e| if let EvKind::EventChange(n) = &e.kind { Some(n.clone()) } else { None }).collect();
+                acc.count("subsystem_names_through_a_session", got.len() as u64);
+                if got != want || !out.panics.is_empty() {
+                    let k = got.iter().zip(want.iter()).position(|(a, b)| a != b).unwrap_or(got.len().min(want.len()));
+                    acc.violation(i, None, format!("the event for `changed: {}` carries a subsystem whose protocol name is {:?} ({} events for {} reported names; panics {:?})", want.get(k).cloned().unwrap_or_default(), got.get(k), got.len(), want.len(), out.panics), J::obj().set("reported", want.clone()).set("events", got.clone()));
+                }
             }
             3 => {
                 // round trip for every named variant: try_from(name_of(t)) == t and is the named variant again
@@ -270,10 +317,10 @@ impl Property for C20 {
             assumptions: vec![
                 "name tables typed from MPD tag/Names.c and IdleFlags.cxx (harness/src/refmodel/mpdspec.rs)".into(),
                 "hand-constructed Tag::Other in non-canonical case is documented as unchecked: the round-trip clause is checked for named variants and try_from results only".into(),
-                "the subsystem carried by events for `changed: <name>` is observed in real sessions by the C04 monitor (same name table)".into(),
+                "the subsystem carried by events for `changed: <name>` is observed in a real session against the simulated server (and, under racing schedules, by the C04 monitor)".into(),
             ],
             exhaustive: Some(true),
-            floors: vec![("tag_pairs".into(), 10_000), ("subsystem_pairs".into(), 3_000), ("parse_exhaustive_done".into(), 1), ("strings_parsed".into(), 500)],
+            floors: vec![("tag_pairs".into(), 10_000), ("subsystem_pairs".into(), 3_000), ("parse_exhaustive_done".into(), 1), ("strings_parsed".into(), 500), ("subsystem_names_through_a_session".into(), 50)],
             extra: vec![],
         }
     }
